@@ -329,6 +329,86 @@ def selfref_cases(path, data, fs, w):
     return out
 
 
+def classic_group_file(groups, cache_type=1):
+    """A valid superblock-version-0 file made of symbol-table groups only, laid out as the HDF5 C library does:
+    one (v1 object header, B-tree leaf, local heap, symbol table node) per group; groups[i] = [(name, target index), ...],
+    group 0 is the root.  cache_type 1 = every entry carries the cached B-tree/heap addresses of its group (H5G_CACHED_STAB,
+    what the C library writes), 0 = no cache (what this library's writer writes).  Several entries may name the same group
+    (hard links): the object graph is a DAG, the number of PATHS can be exponential in the file size."""
+    import struct
+    LEAFK, INTK = 4, 16
+    OHDR, TREE, HEAPH, HEAPD = 40, 24 + (2 * INTK + 1) * 8 + 2 * INTK * 8, 32, 88
+    SNOD = 8 + 2 * LEAFK * 40
+    GS = OHDR + TREE + HEAPH + HEAPD + SNOD
+    U = 0xFFFFFFFFFFFFFFFF
+    base = lambda i: 96 + i * GS
+    ohdr = base
+    tree = lambda i: base(i) + OHDR
+    heap = lambda i: tree(i) + TREE
+    hdat = lambda i: heap(i) + HEAPH
+    snod = lambda i: hdat(i) + HEAPD
+    buf = bytearray(96 + len(groups) * GS)
+    buf[0:8] = b"\x89HDF\r\n\x1a\n"
+    buf[13], buf[14] = 8, 8
+    struct.pack_into("<HH", buf, 16, LEAFK, INTK)
+    struct.pack_into("<QQQQ", buf, 24, 0, U, len(buf), U)
+    struct.pack_into("<QQI", buf, 56, 0, ohdr(0), 1)
+    struct.pack_into("<QQ", buf, 80, tree(0), heap(0))
+    for i, links in enumerate(groups):
+        assert len(links) <= 8 and all(len(n) < 8 for n, _ in links)
+        o = ohdr(i)
+        buf[o] = 1
+        struct.pack_into("<HII", buf, o + 2, 1, 1, 24)
+        struct.pack_into("<HH", buf, o + 16, 0x0011, 16)
+        struct.pack_into("<QQ", buf, o + 24, tree(i), heap(i))
+        h = heap(i)
+        buf[h:h + 4] = b"HEAP"
+        struct.pack_into("<QQQ", buf, h + 8, HEAPD, 1, hdat(i))
+        for j, (nm, _) in enumerate(links):
+            b = nm.encode()
+            buf[hdat(i) + 8 * (j + 1):hdat(i) + 8 * (j + 1) + len(b)] = b
+        t = tree(i)
+        buf[t:t + 4] = b"TREE"
+        struct.pack_into("<QQ", buf, t + 8, U, U)
+        if links:
+            struct.pack_into("<H", buf, t + 6, 1)
+            struct.pack_into("<QQQ", buf, t + 24, 0, snod(i), 8 * len(links))
+        sn = snod(i)
+        buf[sn:sn + 4] = b"SNOD"
+        buf[sn + 4] = 1
+        struct.pack_into("<H", buf, sn + 6, len(links))
+        for j, (_, tg) in enumerate(links):
+            e = sn + 8 + 40 * j
+            struct.pack_into("<QQI", buf, e, 8 * (j + 1), ohdr(tg), cache_type)
+            if cache_type == 1:
+                struct.pack_into("<QQ", buf, e + 24, tree(tg), heap(tg))
+    return bytes(buf)
+
+
+def dag_cases(scratch):
+    """whole files whose group graph is a DAG with exponentially many paths (every level reached through 2..8 hard links),
+    a plain chain and a cycle as controls.  Valid classic-format files: Open must answer (value or error) within the time
+    and memory gates whatever the number of paths is."""
+    out = []
+    d = os.path.join(scratch, "dag")
+    os.makedirs(d, exist_ok=True)
+    def diamond(levels, fan):
+        names = "abcdefgh"
+        return [[(names[k], i + 1) for k in range(fan)] for i in range(levels)] + [[]]
+    shapes = [("chain60", [[("a", i + 1)] for i in range(60)] + [[]]),
+              ("cycle", [[("a", 1)], [("b", 0)]]),
+              ("diamond3x2", diamond(3, 2)), ("diamond14x2", diamond(14, 2)), ("diamond24x2", diamond(24, 2)),
+              ("diamond64x2", diamond(64, 2)), ("diamond12x8", diamond(12, 8)),
+              ("skip30", [[("a", min(i + 1, 30)), ("b", min(i + 2, 30))] for i in range(30)] + [[]])]
+    for name, g in shapes:
+        for ct in (1, 0):
+            p = os.path.join(d, "%s_cache%d.h5" % (name, ct))
+            with open(p, "wb") as f:
+                f.write(classic_group_file(g, ct))
+            out.append(dict(base=p, patches=[], gen="dag", what="%s, symbol table entries with cache type %d" % (name, ct)))
+    return out
+
+
 def deflate_bomb_case(path, data, fs, w, mib):
     """a chunk whose zlib stream expands to `mib` MiB (the stored chunk is a few hundred KiB)"""
     nb = find(fs, "btree1.chunk.nbytes")
@@ -582,6 +662,8 @@ def run(ctx):
         bomb = deflate_bomb_case(p, data, fs, w, 192)
         if bomb:
             cases.append(bomb)
+    dag = dag_cases(scratch)
+    cases += dag
     t1 = time.time()
     res = c07pool.run_cases(H, cases, scratch, timeout_s=timeout_s, extra_args=skip)
     fuzz_wall = time.time() - t1
